@@ -628,7 +628,19 @@ where
         rp
     };
     let build = |out: &mut Out, rng: &mut Rng, fam: Family, n: usize, desc: &mut Value| -> Option<Dt<K, D>> {
-        let pts = g::points::<D>(rng, fam, n);
+        let mut pts = g::points::<D>(rng, fam, n);
+        // special finite float classes among the coordinates (all are legal vertex coordinates):
+        // subnormals, the smallest normal, negative zero
+        if rng.chance(1, 4) && !pts.is_empty() {
+            let specials = [5e-324, -5e-324, 1e-310, -2.5e-309, f64::MIN_POSITIVE, f64::MIN_POSITIVE / 4.0, -0.0, 2.2250738585072011e-308];
+            for _ in 0..1 + rng.usize(2) {
+                let i = rng.usize(pts.len());
+                let j = rng.usize(D);
+                pts[i][j] = *rng.pick(&specials);
+            }
+            desc["special_float_coordinates"] = json!(true);
+            out.count("source/with_special_float_coordinates");
+        }
         let inp = tri::mk_inputs(rng, &pts);
         let opts = if rng.bool() { Opts::default_like() } else { Opts::random(rng) };
         desc["family"] = json!(fam.name());
